@@ -829,7 +829,7 @@ impl<T: Elem + SatisfyTraits<Tr>, M: MX, Tr: TrX + ?Sized> Runner for Cfg<T, M, 
         w.apply(e, &mut out);
         elem::with_reg(|r| { r.fault_at = 0; out.user_calls = r.user_calls; if r.fault_fired { out.faulted = true; } });
         // (a panicking operation allocates its payload in std's panic machinery: not the vector's doing)
-        if matches!(M::KIND, BK::Stack | BK::StackN) && !matches!(e, Edge::CloneEmptyIn { target: 0, .. } | Edge::IterProto { .. }) && !out.outcome.contains("panic") && out.fails.is_empty() && !out.faulted {
+        if matches!(M::KIND, BK::Stack | BK::StackN) && !matches!(e, Edge::CloneEmptyIn { target: 0, .. } | Edge::IterProto { .. } | Edge::Three { .. }) && !out.outcome.contains("panic") && out.fails.is_empty() && !out.faulted {
             let n = galloc::with_as(|st| st.allocs + st.reallocs);
             if n != 0 { out.fail(Class::Alloc, "stack-allocates", format!("{n} heap allocation call(s) inside an operation on a {}-backed vector", M::name())); }
         }
